@@ -22,7 +22,7 @@ func (l *Loader) reportResponseCacheError(err error) {
 	}
 }
 
-func responseCacheSelectionHash(header, footer []byte) uint64 {
+func responseCacheSelectionHash(header, footer []byte, undefinedVariables []string) uint64 {
 	d := pool.Hash64.Get()
 	defer pool.Hash64.Put(d)
 	_, _ = d.Write(header)
@@ -30,6 +30,12 @@ func responseCacheSelectionHash(header, footer []byte) uint64 {
 	// start of the footer cannot go unnoticed.
 	_, _ = d.Write([]byte{0})
 	_, _ = d.Write(footer)
+	// An undefined variable is rendered as null here and removed from the request
+	// afterwards, an explicit null stays: the two requests must not share a key.
+	for _, name := range undefinedVariables {
+		_, _ = d.Write([]byte{0})
+		_, _ = d.WriteString(name)
+	}
 	return d.Sum64()
 }
 
